@@ -17,6 +17,7 @@ import (
 
 // rsync/sender.c:send_files()
 func (st *Transfer) SendFiles(fileList *fileList) error {
+	skipped := 0 // files that could not be opened when it was their turn
 	phase := 0
 	for {
 		// receive data about receiver’s copy of the file list contents (not
@@ -102,6 +103,7 @@ func (st *Transfer) SendFiles(fileList *fileList) error {
 				} else {
 					st.Logger.Printf("sendFiles: %v", err)
 				}
+				skipped++
 				continue
 			} else {
 				return err
@@ -112,6 +114,12 @@ func (st *Transfer) SendFiles(fileList *fileList) error {
 	// phase done
 	if err := st.Conn.WriteInt32(-1); err != nil {
 		return err
+	}
+
+	if skipped > 0 {
+		// The receiver was not told (there is no way to in this protocol
+		// version): do not let the session end as a success.
+		return fmt.Errorf("%d file(s) could not be opened and were not transferred", skipped)
 	}
 
 	return nil
